@@ -128,6 +128,30 @@ pub fn constructs(local: Option<&str>) -> Vec<(&'static str, E)> {
         ("operator-user", bin("+", var("o"), var(v))),
         ("print", print("p ~\\n", vec![var(v)])),
         ("print-noargs", print("p\\n", vec![])),
+        // constructs the compiler translates although they fail when executed: their code must
+        // balance all the same
+        ("object-field-twice-adjacent", E::Object(None, vec![Member::Field("q".into(), var(v)), Member::Field("q".into(), E::Int(2))])),
+        ("object-field-twice-apart", E::Object(None, vec![Member::Field("q".into(), var(v)), Member::Field("r".into(), E::Int(2)), Member::Field("q".into(), E::Int(3))])),
+        (
+            "object-field-three-times",
+            E::Object(Some(bx(E::Int(1))), vec![Member::Field("q".into(), E::Int(1)), Member::Field("q".into(), var(v)), Member::Field("q".into(), E::Int(3)), Member::Field("z".into(), E::Int(4))]),
+        ),
+        ("object-method-twice", E::Object(None, vec![Member::Method("w".into(), vec![], E::Int(1)), Member::Method("w".into(), vec![], E::Int(2))])),
+        ("object-field-and-method-same-name", E::Object(None, vec![Member::Field("w".into(), var(v)), Member::Method("w".into(), vec![], E::Int(2))])),
+        ("call-unknown-function", call("nosuchfunction", vec![var(v)])),
+        ("call-too-few-arguments", call("fn", vec![])),
+        ("call-too-many-arguments", call("fn", vec![var(v), E::Int(2), E::Int(3)])),
+        ("read-undefined", var("neverdefined")),
+        ("assign-undefined", assign("neverdefined2", var(v))),
+        ("method-unknown", mcall(var("o"), "nosuchmethod", vec![var(v)])),
+        ("method-on-null", mcall(E::Null, "m", vec![var(v)])),
+        ("field-unknown", field(var("o"), "nosuchfield")),
+        ("field-of-int", field(E::Int(1), "f")),
+        ("print-too-few-arguments", print("~ ~\\n", vec![var(v)])),
+        ("print-too-many-arguments", print("~\\n", vec![var(v), E::Int(2)])),
+        ("array-negative-size", E::Array(bx(E::Int(-1)), bx(var(v)))),
+        ("array-compound-negative-size", E::Array(bx(E::Int(-1)), bx(call("fn", vec![E::Int(1)])))),
+        ("divide-by-zero", bin("/", var(v), E::Int(0))),
     ]
 }
 
